@@ -172,6 +172,11 @@ pub fn main(a: &Args) {
             if i % 3 == 0 { inputs_v.push((t.clone(), "markdown".into(), 0)); }
             if i % 7 == 0 { let fr = rng.pick(&fronts[..]).clone(); inputs_v.push((inputs::wrap_front(&fr, &t, &mut rng), fr, 0)); }
         }
+        // Typst: function calls, set / show rules, lines ending in CRLF or a blank
+        for i in 0..a.num("typst-calls", 300) as usize {
+            let t = inputs::typst_calls(&mut rng, &corpus[i % corpus.len()]);
+            inputs_v.push((t, "typst".into(), 0));
+        }
         for t in inputs::glued_pairs() {
             inputs_v.push((t.clone(), "plain".into(), 0));
             if t.len() % 3 == 0 { inputs_v.push((t, "markdown".into(), 0)); }
